@@ -2,6 +2,8 @@
 faults, manual edits and malformed calls (C04, C05, C06, C07, C17, C19)."""
 from __future__ import annotations
 
+import contextlib
+import io
 import json
 import math
 import pickle
@@ -22,6 +24,16 @@ from .glsim import same, vkey
 from .models import REJECT, DModel, ModelInvalid, is_nan, label_equal, py
 
 PROPS = ("C04", "C05", "C06", "C07", "C17", "C19")
+
+
+class _Sink(io.TextIOBase):
+    """The library prints (ChainedDiscretizer's unknown-value notice); checks keep stdout clean."""
+
+    def write(self, text):
+        return len(text)
+
+
+_DEVNULL = _Sink()
 
 
 class _Fail(Exception):
@@ -365,7 +377,7 @@ class Session:
 
     def lib(self, func, *args, **kwargs):
         """Calls library code under the run's scheduler; classifies the outcome."""
-        with seams.scheduling(self.sched):
+        with seams.scheduling(self.sched), contextlib.redirect_stdout(_DEVNULL):
             try:
                 return ("ok", func(*args, **kwargs))
             except AssertionError as err:
